@@ -232,7 +232,10 @@ fn run_wt(f: &HashMap<String, String>) -> String {
 // ---------------------------------------------------------------- KWrongFmt
 fn run_wf<T: El>(f: &HashMap<String, String>) -> String {
     let xb = unhex(&f["xs"]); let xs: Vec<T> = elems(&xb); let bf = ph(&f["bf"]) as u16;
-    let msg = Message::builder().id(1).body_typed_slice(&xs).body_format_code(bf).build();
+    // g=1: the generic (serde) encoding of the same elements, relabelled
+    let b = Message::builder().id(1);
+    let msg = if f.get("g").map(|g| g == "1").unwrap_or(false) { b.body_beve(&xs).expect("serde encode").body_format_code(bf).build() }
+              else { b.body_typed_slice(&xs).body_format_code(bf).build() };
     let r1 = res_s(msg.decode_typed_slice::<T>(), None);
     let r2 = match msg.decode_complex_slice::<T>() { Ok(v) => format!("ok:{}", hex(&cplx_bytes(&v))), Err(e) => format!("err:{}", ekind(&e)) };
     let ctx = CallContext::detached("/x");
@@ -435,7 +438,10 @@ fn gen_cases(seed: u64, thorough: bool) -> Vec<String> {
     for t in TYPES {
         for bf in [0u16, 2, 3, 4, 0x100, 0xffff] {
             for &n in &[0usize, 2, 9] {
-                cases.push(format!("k=wf t={t} xs={} bf={bf:x}", gen_xs(&mut rng, t, n)));
+                cases.push(format!("k=wf t={t} xs={} bf={bf:x} g=0", gen_xs(&mut rng, t, n)));
+                // the generic encoding under another format (for n = 0 the body `05 00` that the
+                // BEVE-format decoders accept for every element type)
+                cases.push(format!("k=wf t={t} xs={} bf={bf:x} g=1", gen_xs(&mut rng, t, n)));
             }
         }
     }
